@@ -302,6 +302,48 @@ def ex_eshell(case, obs):
     obs.outcome = _digest(m)
 
 
+def ex_defaults(case, obs):
+    """Size arguments left out: the documented defaults (radius = half the smallest [x,y] edge, height = z edge,
+    ellipsoid radii = half the edges, centre = edge // 2) must give the analytic solid for exactly those numbers."""
+    from cryocat import cryomask as cm
+
+    kind, box, centred = case
+    c = tuple(v // 2 for v in box)
+    ckw = {"center": list(c)} if centred else {}
+    what = f"{kind} box {box} {'explicit' if centred else 'default'} centre, sizes left out"
+    if kind == "sphere":
+        r = min(box) // 2
+        ok, m = _call(obs, "spherical_mask", "default-radius", cm.spherical_mask, list(box), **ckw)
+        exp = shapes.sphere(box, c, r)
+    elif kind == "cylinder":
+        r, h = min(box[:2]) // 2, box[2]
+        ok, m = _call(obs, "cylindrical_mask", "default-radius-height", cm.cylindrical_mask, list(box), **ckw)
+        exp = shapes.cylinder(box, c, r, h)
+    elif kind == "cylinder-r":
+        r, h = 2, box[2]
+        ok, m = _call(obs, "cylindrical_mask", "default-height", cm.cylindrical_mask, list(box), radius=r, **ckw)
+        exp = shapes.cylinder(box, c, r, h)
+    elif kind == "cylinder-h":
+        r, h = min(box[:2]) // 2, 3
+        ok, m = _call(obs, "cylindrical_mask", "default-radius", cm.cylindrical_mask, list(box), height=h, **ckw)
+        exp = shapes.cylinder(box, c, r, h)
+    elif kind == "s_shell":
+        r = min(box) // 2
+        ok, m = _call(obs, "spherical_shell_mask", "default-radius", cm.spherical_shell_mask, list(box), 2, **ckw)
+        exp = shapes.spherical_shell(box, c, r, 2)
+    else:
+        radii = tuple(v // 2 for v in box)
+        ok, m = _call(obs, "ellipsoid_mask", "default-radii", cm.ellipsoid_mask, list(box), **ckw)
+        exp = shapes.ellipsoid(box, c, radii)
+    if not ok:
+        return
+    obs.nontrivial = bool(exp.any() and not exp.all())
+    site = {"sphere": "spherical_mask", "s_shell": "spherical_shell_mask", "ellipsoid": "ellipsoid_mask"}.get(kind, "cylindrical_mask")
+    _judge_hard(obs, site, f"default-{kind.split('-')[0]}", m, exp, [("voxel-missing", _true(box))], [("voxel-wrongly-set", _true(box))],
+                cls="documented-defaults", what=what)
+    obs.outcome = _digest(m)
+
+
 # ---------------------------------------------------------------------------------------------
 # name-based generator
 
@@ -669,6 +711,13 @@ def families(tier, seed):
                            expect=("cylinder-rim-voxel-missing", "cylinder-cap-layer-missing", "cylinder-beyond-cap-layer-set", "cylinder-equals-analytic-solid")))
         fams.append(Family("ellipsoid-48", _ell_space(big, _cube((1, 4, 13, 24, 30)), lat5), ex_ellipsoid,
                            expect=("ellipsoid-surface-voxel-missing", "ellipsoid-outside-voxel-set")))
+
+    # -- sizes left out: documented defaults -------------------------------------------------
+    dboxes = _cube((6, 7, 8, 9, 12)) if quick else _cube((6, 7, 8, 9, 10, 12, 15, 16))
+    dcases = [(k, bx, cen) for k in ("sphere", "cylinder", "cylinder-r", "cylinder-h", "s_shell") for bx in dboxes for cen in (False, True)]
+    dcases += [("ellipsoid", bx, cen) for bx in dboxes if all(v % 2 == 0 for v in bx) for cen in (False, True)]
+    fams.append(Family("documented-defaults", Listed(dcases), ex_defaults,
+                       expect=("default-sphere-voxel-missing", "default-cylinder-voxel-wrongly-set", "default-s_shell-voxel-missing", "default-ellipsoid-voxel-missing")))
 
     # -- names -------------------------------------------------------------------------------
     names = _name_cases(6, 8, 4, (1, 2, 3, 4, 5, 6), (None, 12, 16, 15)) if quick else _name_cases(8, 10, 4, (1, 2, 3, 4, 5, 6, 7, 8), (None, 12, 16, 20, 15, 21))
